@@ -334,6 +334,10 @@ fn parse_cron_part(
                 parse_value(end, cron_type)?
             };
 
+            if range_parts.next().is_some() {
+                return Err(format!("A range consists of exactly two values: {}", part));
+            }
+
             if start > end {
                 return Err(
                   format!("The start number of a range must be greater than or equal than the end value: {}>={}", start, end)
